@@ -90,7 +90,8 @@ CHECKS = {
                  "failing-compile / vanishing-file scenarios and of first-use renders (cached defs with own arguments, relative include / "
                  "inherit / namespace from a sub-directory), every two-preemption schedule of the two-thread first-load and modify-race "
                  "scenarios and of steady-state renders of one compiled template (decorated / buffered defs, capture, <%call>, loop) by two "
-                 "threads with their own contexts (strided in quick). Per call: complete template, version between call start and return, "
+                 "threads with their own contexts (strided in quick), every single-preemption schedule of two threads rendering one "
+                 "def from the top level (get_def(name).render) with different arguments. Per call: complete template, version between call start and return, "
                  "documented exceptions only, single construction and shared object for simultaneous first requests, renders equal "
                  "solo output, bound held at quiescence, mutex released, lookup usable afterwards."),
         "note": ("Preemption only between Python lines of mako code, not inside C calls or between bytecodes; op lists are short; DFS is "
